@@ -48,7 +48,7 @@ func vC20Scenario() {
 	vAssume(!blockWrite || (silent && !partial))
 	refuse := vBool("refusepeer") // the peer answers 400: a handshake failure that is not a timeout
 	vAssume(!(silent && refuse))
-	cancelAt := vInt("cancelat") // cancel right before connection operation #cancelAt (-1: never)
+	cancelAt := vInt("cancelat")                 // cancel right before connection operation #cancelAt (-1: never)
 	vAssume(vAnd(cancelAt >= -2, cancelAt <= 5)) // -2: already cancelled before connecting
 	if ctxKind != 1 {
 		vAssume(cancelAt == -1)
